@@ -8,6 +8,8 @@ package operations
 //@ define opsIdle(o ref) bool = !driveHeld && !mutexHeld[addr(o.diskOperationLock)]
 
 //@ func (*Operations).Delete
+//@   property C01
+//@   at call append#3 assert [indexer-gets-the-record-as-it-reads-back-unwrapped] !hdrSealed[hdr] && has(hdr.PAXRecords, "STFS.Action")
 //@   property C12
 //@   at call append#2 assert [children-from-subtree-query] subtreeQueries == old(subtreeQueries) + 1
 //@   at call SignHeader#1 assert [delete-record-names] hdr.Name == dbhdr.Name && hdr.PAXRecords["STFS.Action"] == "DELETE" && hdr.Size == 0
@@ -38,6 +40,8 @@ package operations
 //@   ensures [ops-free] !mutexHeld[addr(o.diskOperationLock)]
 
 //@ func (*Operations).Move
+//@   property C01
+//@   at call append#3 assert [indexer-gets-the-record-as-it-reads-back-unwrapped] !hdrSealed[hdr] && has(hdr.PAXRecords, "STFS.Action")
 //@   property C17
 //@   at call Join#1 assert [new-names-independent-of-spelling] arg_elem[0] == to && arg_elem[1] == trimPrefix(trimPrefix(dbhdr.Name, "/"), trimPrefix(from, "/"))
 //@   property C13
@@ -79,6 +83,7 @@ package operations
 //@   ensures [counted] opRestores == old(opRestores) + 1
 //@   property C04
 //@   at call Fetch assert [uses-row-position] arg_record == dbhdr.Record && arg_block == dbhdr.Block
+//@   at call Fetch assert [position-and-destination-of-one-row] to == "" ==> exists i int :: 0 <= i && i < len(headersToRestore) && headersToRestore[i].Name == arg_to && headersToRestore[i].Record == arg_record && headersToRestore[i].Block == arg_block
 //@   property C11
 //@   at call GetWriter assert [drive-taken-under-operation-lock] mutexHeld[addr(o.diskOperationLock)]
 //@   at call CloseWriter assert [drive-released-under-operation-lock] mutexHeld[addr(o.diskOperationLock)]
@@ -102,6 +107,8 @@ package operations
 //@   ensures [ops-free] !mutexHeld[addr(o.diskOperationLock)]
 
 //@ func (*Operations).archive
+//@   property C01
+//@   at call append#1 assert [indexer-gets-the-record-as-it-reads-back-unwrapped] !hdrSealed[hdr]
 //@   property C17
 //@   at call SignHeader#1 assert [pax-format] arg_hdr.Format == 4
 //@   property C03
@@ -135,6 +142,9 @@ package operations
 //@   ensures [drive-free] !driveHeld
 
 //@ func (*Operations).Update
+//@   property C01
+//@   at call append#1 assert [indexer-gets-the-record-as-it-reads-back-unwrapped] !hdrSealed[hdr]
+//@   at call append#2 assert [indexer-gets-the-record-as-it-reads-back-unwrapped] !hdrSealed[hdr]
 //@   property C17
 //@   at call SignHeader#1 assert [pax-format] arg_hdr.Format == 4
 //@   at call SignHeader#2 assert [pax-format-meta] arg_hdr.Format == 4
@@ -183,6 +193,8 @@ package operations
 //@   ensures [ops-free] !mutexHeld[addr(o.diskOperationLock)]
 
 //@ func (*Operations).Delete$2
+//@   property C10
+//@   safety C10 bounds
 //@   property C08
 //@   conforms HeaderSubst
 //@   modifies *, hdrVerified[hdr], hdrSubstituted[hdr], hdrSealed[hdr]
@@ -193,6 +205,8 @@ package operations
 //@   conforms NoopVerifier
 
 //@ func (*Operations).Move$2
+//@   property C10
+//@   safety C10 bounds
 //@   property C08
 //@   conforms HeaderSubst
 //@   modifies *, hdrVerified[hdr], hdrSubstituted[hdr], hdrSealed[hdr]
@@ -203,6 +217,8 @@ package operations
 //@   conforms NoopVerifier
 
 //@ func (*Operations).Update$2
+//@   property C10
+//@   safety C10 bounds
 //@   property C08
 //@   conforms HeaderSubst
 //@   modifies *, hdrVerified[hdr], hdrSubstituted[hdr], hdrSealed[hdr]
@@ -213,6 +229,8 @@ package operations
 //@   conforms NoopVerifier
 
 //@ func (*Operations).archive$2
+//@   property C10
+//@   safety C10 bounds
 //@   property C08
 //@   conforms HeaderSubst
 //@   modifies *, hdrVerified[hdr], hdrSubstituted[hdr], hdrSealed[hdr]
